@@ -34,7 +34,6 @@ let render raw r =
   | DOverflow -> "ovf"
   | DTooLarge (s, m) -> "big:" ^ hex_of_n s ^ ":" ^ hex_of_n m
   | DReaderErr -> "rerr"
-  | DAllocPanic -> "panic"
   | DOutOfFuel -> "fuel"
 
 let handle op args =
